@@ -58,6 +58,29 @@ func gen(t *rapid.T) Case {
 			c.DownAtNew = append(c.DownAtNew, s)
 		}
 	}
+	if rapid.IntRange(0, 2).Draw(t, "directed") == 0 {
+		// the shape the reply clause is about: a connected node crashes, the outage outlasts the first
+		// reconnection attempt (the receiver then sleeps in its back-off), the node listens again and
+		// the probes start at once - the first call reaches the node before any back-off timer fires
+		s := rapid.IntRange(0, n-1).Draw(t, "crashNode")
+		if !up[s] {
+			c.Steps = append(c.Steps, Step{Op: "start", Node: s})
+			up[s] = true
+		}
+		if rapid.Bool().Draw(t, "warm") {
+			c.Steps = append(c.Steps, Step{Op: "call", Node: s, Kind: rapid.SampledFrom(trafficKinds).Draw(t, "warmKind")})
+		}
+		c.Steps = append(c.Steps, Step{Op: "stop", Node: s},
+			Step{Op: "sleep", Ms: rapid.SampledFrom([]int{20, 60, 150}).Draw(t, "outageMs")},
+			Step{Op: "start", Node: s})
+		for k := 0; k < n; k++ {
+			if !up[k] {
+				c.Steps = append(c.Steps, Step{Op: "start", Node: k})
+			}
+		}
+		c.ProbeKinds = rapid.SliceOfNDistinct(rapid.SampledFrom(probeKinds), 1, 2, rapid.ID[string]).Draw(t, "probeKinds")
+		return c
+	}
 	ns := rapid.IntRange(1, 6).Draw(t, "nsteps")
 	for i := 0; i < ns; i++ {
 		s := rapid.IntRange(0, n-1).Draw(t, fmt.Sprintf("node%d", i))
@@ -180,6 +203,13 @@ func once(c Case) outcome {
 				o.events = cl.Log.Snapshot()
 				call.Cancel()
 				return o
+			}
+			if call.Err != nil {
+				// the call failed; its request may still be on its way (a call that is failed while its
+				// request waits to be written is written nevertheless): give the handler a moment
+				cl.Log.WaitFor(60*time.Millisecond, func(evs []scen.Event) bool {
+					return scen.Count(evs, func(e scen.Event) bool { return e.Kind == "exit" && e.Token == tok && e.Server == s }) > 0
+				})
 			}
 			evs := cl.Log.Snapshot()
 			var exitT time.Time
@@ -359,7 +389,7 @@ func run(c Case) vt.Verdict {
 func TestProp(t *testing.T) {
 	vt.Main(t, vt.Spec[Case]{
 		ID:           "C10",
-		Rule:         "fault-sequence generation: 1-3 nodes, any subset down when the manager is created, a generated sequence of stop / start events, traffic calls of 8 kinds with 150 ms deadlines and sleeps of 1 ms - 2.6 s (so crashes strike with calls pending and during back-off, and an outage can outlast several reconnection attempts), all nodes listening again at the end; manager metadata and per-node metadata function generated (in half of the cases with both, one key is carried by both and both values must arrive); gorums' and grpc's back-off set to 400 or 1200 ms. Oracle: (a) repeated RPCs reach every node that listens again within the bound, without recreating manager or configuration, and then calls of 1-3 further generated types (quorum, per-node, async, correctable, stream, multicast, per-node multicast, unicast) reach every node as well (3 attempts each); (b) for the first RPC whose request the restarted server handled, the time from the handler's exit to the call's return must stay below half the back-off (replies otherwise take < 5 ms; a slow reply is confirmed by a second independent run of the case); a probe that the restarted server handled and answered must not fail at the caller (reported if a second independent run loses the reply again); (c) every accepted stream triggered exactly one connect callback whose context carries all general pairs and exactly the per-node pairs of that node's id; non-trivial = some node was restarted or came up after the manager was created",
+		Rule:         "fault-sequence generation (a third of the cases directed: crash of a connected node, an outage of 20-150 ms, restart, probes at once): 1-3 nodes, any subset down when the manager is created, a generated sequence of stop / start events, traffic calls of 8 kinds with 150 ms deadlines and sleeps of 1 ms - 2.6 s (so crashes strike with calls pending and during back-off, and an outage can outlast several reconnection attempts), all nodes listening again at the end; manager metadata and per-node metadata function generated (in half of the cases with both, one key is carried by both and both values must arrive); gorums' and grpc's back-off set to 400 or 1200 ms. Oracle: (a) repeated RPCs reach every node that listens again within the bound, without recreating manager or configuration, and then calls of 1-3 further generated types (quorum, per-node, async, correctable, stream, multicast, per-node multicast, unicast) reach every node as well (3 attempts each); (b) for the first RPC whose request the restarted server handled, the time from the handler's exit to the call's return must stay below half the back-off (replies otherwise take < 5 ms; a slow reply is confirmed by a second independent run of the case); a probe that the restarted server handled and answered must not fail at the caller (reported if a second independent run loses the reply again); (c) every accepted stream triggered exactly one connect callback whose context carries all general pairs and exactly the per-node pairs of that node's id; non-trivial = some node was restarted or came up after the manager was created",
 		Gen:          gen,
 		Run:          run,
 		TrackCurrent: true,
